@@ -423,3 +423,21 @@ func tagHandlerFailed() bool {
 //@   props C04:post,pre@call
 //@   ensures __ghost("tagged") == old(__ghost("tagged"))
 //@   ensures c.state == old(c.state)
+
+// Continuation requests: "+" answers a synchronising literal that is accepted,
+// or IDLE in a state that permits it.
+
+//@ func (c *Conn) acceptLiteral(size int64, nonSync bool) (err error)
+//@   props C04:post,pre@call,callsite
+//@   callsite Conn.writeContReq requires !nonSync
+//@   ensures c.state == old(c.state) && __ghost("tagged") == old(__ghost("tagged"))
+
+//@ func (c *Conn) checkBufferedLiteral(size int64, nonSync bool) (err error)
+//@   props C04:post,pre@call,callsite C06:post
+//@   ensures size > 4096 ==> err != nil
+//@   ensures c.state == old(c.state) && __ghost("tagged") == old(__ghost("tagged"))
+
+//@ func (c *Conn) handleIdle(dec *imapwire.Decoder) (err error)
+//@   props C04:post,pre@call,callsite
+//@   callsite Conn.writeContReq requires authed(c)
+//@   ensures c.state == old(c.state) && __ghost("tagged") == old(__ghost("tagged"))
